@@ -12,3 +12,9 @@ package treasure
 //@   ensures r == U_treasure_created(t)
 //@ trusted func (Treasure).GetModifiedAt(t) (r)
 //@   ensures r == U_treasure_modified(t)
+//@ trusted func (Treasure).StartTreasureGuard(t, waiting, bodyAuthID) (id)
+//@ trusted func (Treasure).ReleaseTreasureGuard(t, id)
+//@ trusted func (Treasure).GetKey(t) (k)
+// Clone: a new record object carrying the same attributes.
+//@ trusted func (Treasure).Clone(t, id) (c)
+//@   ensures c != nil && U_treasure_exp(c) == U_treasure_exp(t) && U_treasure_created(c) == U_treasure_created(t) && U_treasure_modified(c) == U_treasure_modified(t)
